@@ -280,7 +280,18 @@ def case(ctx, rnd, i):
     i -= STR
     r = i % 3
     if r == 0:
-        ast = gen.bounded_ast(rnd, cw.BLOCK_NAMES, rnd.randint(4, 9), 30)
+        if rnd.random() < 0.35:
+            # a long sequence (8-14 terms, each possibly starred / optional / repeated): automata
+            # with more than ten states, where state numbering has two digits
+            terms = []
+            for _ in range(rnd.randint(8, 14)):
+                t_ = ("name", rnd.choice(["a", "b", "c", "g", "gg", "r"] if rnd.random() < 0.9 else ["a", "b"]))
+                q_ = rnd.random()
+                terms.append(("star", t_) if q_ < 0.3 else ("opt", t_) if q_ < 0.45 else ("plus", t_) if q_ < 0.55 else t_)
+            ast = ("seq", tuple(terms))
+            ctx.count("long_sequence_probes")
+        else:
+            ast = gen.bounded_ast(rnd, cw.BLOCK_NAMES, rnd.randint(4, 9), 30)
         _probe(ctx, ast, rnd, maxlen, alphabet)
         return
     if r == 1:
